@@ -256,8 +256,8 @@ Section Node.
     else modify (fun s =>
            let nr := g_advance_next r (s_round s) (qc_round (s_high_qc s)) (s_last_voted s) (s_last_committed s) in
            let s := set_round s nr in
-           let s := set_qcm s (filter (fun e => nr <=? fst (fst e)) (s_qcm s)) in
-           set_tcm s (filter (fun e => nr <=? fst e) (s_tcm s))).
+           let s := set_qcm s (filter (fun e => g_agg_keep_votes (fst (fst e)) nr) (s_qcm s)) in
+           set_tcm s (filter (fun e => g_agg_keep_timeouts (fst e) nr) (s_tcm s))).
 
   Definition update_high_qc (qc : QC) : M unit :=
     modify (fun s => if g_update_high_qc (qc_round qc) (s_round s) (qc_round (s_high_qc s)) (s_last_voted s) (s_last_committed s) then set_high_qc s qc else s).
